@@ -728,6 +728,11 @@ def mem_variants(tier):
     V["rw.rf.w7g4"] = dict(ports="rw", mode="rf", gran=4, re=False, init="full", depth=2, width=7)
     V["rw.wf.w10g4"] = dict(ports="rw", mode="wf", gran=4, re=False, init="full", depth=2, width=10)
     V["rw.nc.d3"] = dict(ports="rw", mode="nc", gran=0, re=False, init="full", depth=3)
+    # depths that are not a power of two, every port mode (address registers / read registers sized from the depth)
+    V["rw.wf.d3"] = dict(ports="rw", mode="wf", gran=0, re=False, init="full", depth=3)
+    V["rw.rf.d3"] = dict(ports="rw", mode="rf", gran=0, re=True, init="short", depth=3)
+    V["dual.wf.d3"] = dict(ports="dual", mode="wf", gran=0, re=False, init="full", depth=3)
+    V["rw.wf.d5"] = dict(ports="rw", mode="wf", gran=0, re=False, init="short", depth=5)
     V["dual.wnc.rf"] = dict(ports="dual", mode="rf", wmode="nc", gran=0, re=False, init="short", depth=4)
     return V
 
